@@ -306,6 +306,8 @@ enum Op {
     ValidateOff(usize, Content, i64),
     /// the node hands over the preimage of hash h on channel i (Channel::htlcs_fulfilled)
     Fulfil(usize, u64),
+    /// Node::get_heartbeat (prunes payment records that carry nothing)
+    Heartbeat,
     Restart,
 }
 
@@ -342,13 +344,11 @@ fn run_case(case: usize, nch: usize, script: Option<Vec<Op>>, rng: &mut Rng, len
                         Op::Validate(i, mutate(rng, &base, &invoices, fee_msat / 1000))
                     }
                     14..=15 => Op::Revoke(i),
-                    16 => {
-                        if rng.chance(1, 2) {
-                            Op::Fulfil(i, *rng.pick(&HASHES))
-                        } else {
-                            Op::Revoke(i)
-                        }
-                    }
+                    16 => match rng.below(3) {
+                        0 => Op::Fulfil(i, *rng.pick(&HASHES)),
+                        1 => Op::Heartbeat,
+                        _ => Op::Revoke(i),
+                    },
                     17 => {
                         // replayed / early requests with other HTLC sets (they must change nothing)
                         let off = *rng.pick(&[-2i64, -2, -3, 2]);
@@ -478,6 +478,10 @@ fn run_case(case: usize, nch: usize, script: Option<Vec<Op>>, rng: &mut Rng, len
                         Ok(())
                     });
                     (format!("PFulfil {}", h), json!(["fulfil", i, h]), r.is_ok(), false)
+                }
+                Op::Heartbeat => {
+                    sys.node.get_heartbeat();
+                    ("PHeartbeat".to_string(), json!("heartbeat"), true, false)
                 }
                 Op::Restart => {
                     sys.restart();
